@@ -23,9 +23,12 @@ def _run(job):
         kwargs["form_name"] = src["fname"]
     tmp = None
     try:
-        if src["chan"] == "path":
+        if src["chan"] in ("path", "path_odd"):
             tmp = tempfile.mkdtemp(prefix="c11-", dir="/var/tmp")
             ext = {"md": ".md", "xlsx": ".xlsx", "csv": ".csv", "xls": ".xls"}[fmt]
+            if src["chan"] == "path_odd":
+                # a suffix that is no hint: the content is still recognised by trying each reader
+                ext = {"md": ".txt", "xlsx": ".XLSX", "csv": "", "xls": ".Xls"}[fmt]
             p = os.path.join(tmp, src["stem"] + ext)
             data = {"md": render.to_md, "csv": render.to_csv, "xlsx": render.to_xlsx, "xls": render.to_xls}[fmt](wb)
             with open(p, "wb" if isinstance(data, bytes) else "w") as f:
@@ -47,8 +50,8 @@ def _run(job):
 
 def run(rep):
     rep.rule = ("TLC (Gen_Settings) enumerates every subset of the 17 settings with <= N present and every subset with <= N absent "
-                "(N=3 quick / 4 thorough; invalid combinations excluded), x {path input with a file stem, in-memory input} x "
-                "{form_name argument, none}; the harness writes distinct atoms under random documented alias spellings, renders to md/xlsx/"
+                "(N=3 quick / 4 thorough; invalid combinations excluded), x {path input with a file stem, path with an uninformative suffix (.XLSX/.txt/none), in-memory input} x "
+                "{form_name argument, none} x {entities sheet, none}; the harness writes distinct atoms under random documented alias spellings, renders to md/xlsx/"
                 "csv/xls/dict, converts, and TLC (Trace_Settings) checks the projected header against the mapping with its defaults.")
     rep.assumptions = ["defaults as documented: id <- form_id | file stem | 'data'; title <- form_title | id; root name <- settings name | form_name argument | 'data'",
                        "auto_send / auto_delete values are passed through verbatim"]
@@ -60,7 +63,7 @@ def run(rep):
     rep.bounds["subsets"] = {"N": n, "cases": len(cases)}
     jobs = []
     for i, c in enumerate(cases):
-        if c["chan"] == "path":
+        if c["chan"] in ("path", "path_odd"):
             fmt = ["md", "xlsx", "csv", "xls"][i % 4]
         else:
             fmt = ["dict", "md", "dict", "xlsx", "dict", "csv"][i % 6]
@@ -97,7 +100,7 @@ def run(rep):
     t = copy.deepcopy(base["trace"]); t[0]["obs"]["title"] = next(v for k, v in t[0]["obs"]["root_attrs"] if k == "id"); cans.append(("title_shows_id", t))
     t = copy.deepcopy(base["trace"]); t[0]["obs"]["root_attrs"] = [a for a in t[0]["obs"]["root_attrs"] if a[0] != "version"] + [["version", "other"]]; cans.append(("version_wrong", t))
     t = copy.deepcopy(base["trace"]); t[0]["obs"]["nsdecls"].append("zz=http://invented"); cans.append(("namespace_invented", t))
-    b2 = next(o for o in ok if o["case"]["chan"] == "path" and "id" not in o["case"]["present"])
+    b2 = next(o for o in ok if o["case"]["chan"] in ("path", "path_odd") and "id" not in o["case"]["present"])
     t = copy.deepcopy(b2["trace"]); t[0]["obs"]["root_attrs"] = [["id", "data"] if a[0] == "id" else a for a in t[0]["obs"]["root_attrs"]]; cans.append(("stem_fallback_ignored", t))
     a, _ = tlc.validate_traces("Trace_Settings", cfg, [c[1] for c in cans] + [base["trace"]], shards=1, tag="canary")
     wrongly = [cans[i][0] for i in a if i < len(cans)]
